@@ -31,9 +31,26 @@ type phCar struct {
 }
 
 func (c *phCar) Refit(e *phEngine) *phEngine { old := c.Engine; c.Engine = e; return old }
-func (c *phCar) Self() *phCar               { return c }
-func (c *phCar) SetSpareRPM(n int)          { c.Spare.RPM = n }
-func (c *phCar) DropEngine()                { c.Engine = nil }
+func (c *phCar) Self() *phCar                { return c }
+func (c *phCar) SetSpareRPM(n int)           { c.Spare.RPM = n }
+func (c *phCar) DropEngine()                 { c.Engine = nil }
+
+// Lookup has a context parameter (supplied by the proxy, not by the script) in front of a pointer and a
+// string parameter.
+func (c *phCar) Lookup(ctx context.Context, limit *int, name string) string {
+	if limit == nil {
+		return "nil:" + name + ":" + c.Label
+	}
+	return fmt.Sprintf("%d:%s:%s", *limit, name, c.Label)
+}
+
+// Pick has the context in the middle.
+func (c *phCar) Pick(a int, ctx context.Context, e *phEngine, b string) string {
+	if e == nil {
+		return fmt.Sprintf("%d:nil:%s", a, b)
+	}
+	return fmt.Sprintf("%d:%s:%s", a, e.Name, b)
+}
 
 type phStep struct {
 	Op string `json:"op"`
@@ -45,7 +62,7 @@ type phReplay struct {
 }
 
 var phOps = []string{"read-engine", "read-spare", "read-label", "write-engine-rpm", "write-engine", "write-spare-rpm", "write-spare",
-	"write-label", "go-refit", "other-proxy-write", "go-set-spare", "hold-engine", "read-held", "write-held", "go-drop-engine", "write-engine-nil", "read-tags", "append-tags"}
+	"write-label", "go-refit", "other-proxy-write", "go-set-spare", "hold-engine", "read-held", "write-held", "go-drop-engine", "write-engine-nil", "read-tags", "append-tags", "read-lookup-nil", "read-lookup-value", "read-pick-nil", "read-pick-engine"}
 
 func phScript(h []phStep) string {
 	var sb strings.Builder
@@ -85,6 +102,14 @@ func phScript(h []phStep) string {
 			sb.WriteString("car.DropEngine()\n")
 		case "write-engine-nil":
 			sb.WriteString("car.Engine = nil\n")
+		case "read-lookup-nil":
+			sb.WriteString("obs.append(car.Lookup(nil, \"n\"))\n")
+		case "read-lookup-value":
+			fmt.Fprintf(&sb, "obs.append(car.Lookup(%d, \"n\"))\n", k)
+		case "read-pick-nil":
+			sb.WriteString("obs.append(car.Pick(3, nil, \"b\"))\n")
+		case "read-pick-engine":
+			sb.WriteString("obs.append(car.Engine == nil ? \"skip\" : car.Pick(3, car.Engine, \"b\"))\n")
 		case "read-tags":
 			sb.WriteString("obs.append(car.Tags)\n")
 		case "append-tags":
@@ -146,6 +171,19 @@ func phModel(h []phStep) (obs []string, car *phCar) {
 			}
 		case "go-drop-engine", "write-engine-nil":
 			car.Engine = nil
+		case "read-lookup-nil":
+			obs = append(obs, fmt.Sprintf("%q", car.Lookup(context.Background(), nil, "n")))
+		case "read-lookup-value":
+			kk := k
+			obs = append(obs, fmt.Sprintf("%q", car.Lookup(context.Background(), &kk, "n")))
+		case "read-pick-nil":
+			obs = append(obs, fmt.Sprintf("%q", car.Pick(3, context.Background(), nil, "b")))
+		case "read-pick-engine":
+			if car.Engine == nil {
+				obs = append(obs, `"skip"`)
+			} else {
+				obs = append(obs, fmt.Sprintf("%q", car.Pick(3, context.Background(), car.Engine, "b")))
+			}
 		case "read-tags":
 			q := make([]string, len(car.Tags))
 			for i, t := range car.Tags {
